@@ -219,11 +219,14 @@ def gen_valid_raw(rng, max_jobs=4, max_machines=4):
         machines.append("unused")
     nj = rng.choice([0] + list(range(1, max_jobs + 1)) * 4)
     jobs = []
+    # a third of the instances: operation oi of EVERY job has the same Operation.identifier (job_name + "_" + name) although job names differ and
+    # operation names are unique within each job (job "j" / op "x_o0", job "j_x" / op "o0": both "j_x_o0") — legal; the operations stay distinct
+    collide = nj >= 2 and rng.random() < 0.33
     for ji in range(nj):
-        jn = f"j{ji}"
+        jn = "j" + "_x" * ji if collide else f"j{ji}"
         k = rng.randint(1, nm)
         ms = rng.sample(machines[:nm], k)
-        ops = [{"name": f"o{oi}", "job": jn, "machine": m, "dur": rng.choice([1, 1, 2, 3])} for oi, m in enumerate(ms)]
+        ops = [{"name": ("x_" * (nj - 1 - ji) if collide else "") + f"o{oi}", "job": jn, "machine": m, "dur": rng.choice([1, 1, 2, 3])} for oi, m in enumerate(ms)]
         jobs.append({"name": jn, "ops": ops})
     return {"name": "inst", "machines": machines, "jobs": jobs}
 
